@@ -625,19 +625,18 @@ def signature(case, verdict, failed):
     fs = sorted(failed)
     kinds = sorted(x[5:] for x in t if x.startswith("fail:"))
     agree = verdict.get("agree", False)
-    if op in ("buffet", "cache") and agree and fs == ["spec"]:
-        crash = "crash" in kinds
-        if "explained:pinned-pop-other-binding" in t:
+    crash = "crash" in kinds
+    if op == "cache" and agree and "spec" in fs and set(fs) <= {"spec", "TEST_bruteforce_optimal_fills"} \
+            and "jitter" not in kinds:
+        if "explained:pinned-pop-other-binding" in t and fs == ["spec"]:
             return "cache:%s:pinned-pop-other-binding" % ("AssertionError" if crash else "wrong-traffic")
-        if "explained:stamp-tie" in t and "jitter" not in kinds:
+        if "explained:stamp-tie" in t:
             return "cache:%s:stamp-tie" % ("AssertionError" if crash else "suboptimal")
-        if "explained:stale-shape" in t and not crash and "jitter" not in kinds:
+    if op in ("buffet", "cache") and agree and fs == ["spec"] and not crash and "jitter" not in kinds:
+        if "explained:stale-shape" in t:
             return op + ":stale-shape"
         if kinds == ["monotone"] and "overflow" in t and "MODEL-NOT-SPEC" not in t:
             return "cache:nonmonotone:overflow"
-    if op == "cache" and agree and fs == ["TEST_bruteforce_optimal_fills", "spec"] and \
-            "explained:stamp-tie" in t and "crash" not in kinds:
-        return "cache:suboptimal:stamp-tie"
     return op + ":" + "/".join(fs + kinds) + ("" if agree else ":model-disagrees")
 
 
